@@ -289,15 +289,24 @@ def run_item(item):
                 in_lines.append(subj.encode())
                 segs.append(('text', subj.encode(), 'oneline-subject'))
                 add_diff(k)
-                if rng.random() < 0.6:
+                tail_hunkless = rng.random() < 0.6
+                if tail_hunkless:
                     add_hunkless_section(k)
             # (what follows a diff directly is only told from its lines by how it begins: a line starting with a blank, '+',
             # '-' or '\\' after a hunk, a blank or header-like line after a section without hunks *are* lines of that diff for
             # any reader. The lines that close this stream are of the unambiguous kind again.)
-            for _ in range(rng.randint(0, 2)):
+            nsub = rng.randint(0, 2)
+            for _ in range(nsub):
                 subj = ('%07x ' % rng.randrange(1 << 28)) + rng.choice(PROSE)[:50]
                 in_lines.append(subj.encode())
                 segs.append(('text', subj.encode(), 'oneline-subject'))
+            if tail_hunkless and nsub:
+                # ... and once a line that is no header line has ended a section without hunks, nothing that follows is one
+                for _ in range(rng.randint(1, 4)):
+                    t = rng.choice(['', 'index 12..34', 'Hello_World', 'Files changed: 2', '  indented text', '+ plus text', '- minus text', 'rename from here to there',
+                                    'literal 42', 'Only in my opinion'])
+                    in_lines.append(t.encode())
+                    segs.append(('text', t.encode(), 'after-section-end'))
         elif layout == 'text-only':
             add_text(rng.randint(1, 25))
         elif layout == 'text-then-diff':
